@@ -23,6 +23,37 @@ func init() {
 	register(&Scenario{Prop: "C03", Name: "terminate-stall", Run: func(rc *RunCtx) { runFanout(rc, fanOpts{cancel: true, small: true, stall: true}) }})
 }
 
+// thrChange is one threshold setter call (steps at which it started / returned).
+type thrChange struct {
+	typ        string
+	sinks      bool
+	val        int
+	start, end int
+}
+
+// possibleThresholds returns the values that may have been in force at some
+// moment of [a,b] (steps), given the initial value and the setter calls in order.
+func possibleThresholds(init int, changes []thrChange, typ string, sinks bool, a, b int) []int {
+	var tl []thrChange
+	tl = append(tl, thrChange{val: init})
+	for _, c := range changes {
+		if c.typ == typ && c.sinks == sinks {
+			tl = append(tl, c)
+		}
+	}
+	var out []int
+	for i, c := range tl {
+		if c.start > b {
+			continue // set after the Send returned
+		}
+		if i+1 < len(tl) && tl[i+1].end != 0 && tl[i+1].end < a {
+			continue // certainly replaced before the Send started
+		}
+		out = append(out, c.val)
+	}
+	return out
+}
+
 type fanOpts struct {
 	cancel     bool
 	thresholds bool
@@ -166,6 +197,8 @@ func runFanout(rc *RunCtx, o fanOpts) {
 		}
 	}
 
+	var thrChanges []thrChange
+	knownSince := map[string]int{} // types that only became known (through a concurrent setter) at this step
 	graphKnown := map[string]bool{} // types the Broker has been told about
 	// registration history: 0..4 pipelines survive; overwrites and removals on the way
 	maxP := 4
@@ -386,6 +419,47 @@ func runFanout(rc *RunCtx, o fanOpts) {
 		desc.History = append(desc.History, fmt.Sprintf("re-entrant nodes %v + concurrent threshold setter", reent))
 	}
 
+	// C02: a concurrent task changes the thresholds while Sends are in flight; a
+	// Send may then be judged against any value in force during its interval
+	if o.thresholds && !o.stall && tp.Choose(3, "thr-setter") == 0 {
+		k := 1 + tp.Choose(4, "nthrset")
+		type plan struct {
+			typ   string
+			sinks bool
+			val   int
+		}
+		var plans []plan
+		for i := 0; i < k; i++ {
+			t := types[tp.Choose(len(types), "thrtype")]
+			plans = append(plans, plan{t, tp.Choose(2, "thrsinks?") == 0, tp.Choose(len(model.pipesOfType(t))+2, "thrval")})
+		}
+		sim.Spawn("thr-setter", func() {
+			for _, p := range plans {
+				simrt.Yield("thr-setter:step")
+				c := thrChange{typ: p.typ, sinks: p.sinks, val: p.val, start: sim.Step}
+				idx := len(thrChanges)
+				thrChanges = append(thrChanges, c)
+				var err error
+				if p.sinks {
+					err = broker.SetSuccessThresholdSinks(el.EventType(p.typ), p.val)
+				} else {
+					err = broker.SetSuccessThreshold(el.EventType(p.typ), p.val)
+				}
+				if err != nil {
+					rc.Failf("C02.threshold-api", "set-conc", "threshold setter failed: %v", err)
+				}
+				thrChanges[idx].end = sim.Step
+				if !graphKnown[p.typ] {
+					// the type becomes known to the Broker some time during this call
+					if _, ok := knownSince[p.typ]; !ok {
+						knownSince[p.typ] = sim.Step
+					}
+				}
+				simrt.Probe("threshold-changed-during-sends")
+			}
+		})
+	}
+
 	// a concurrent task re-registers registered pipelines with their own, unchanged
 	// definition: the set of registered pipelines never changes, so every Send must
 	// still traverse each of them exactly once
@@ -539,7 +613,17 @@ func runFanout(rc *RunCtx, o fanOpts) {
 
 		// C02: status accounting
 		if rc.Prop == "C02" {
-			if !graphKnown[s.Type] {
+			lateKnown := false
+			if since, ok := knownSince[s.Type]; ok && !graphKnown[s.Type] {
+				// known to the Broker only from some step on: a Send invoked before
+				// that may still get the "unknown type" answer
+				if s.invokeStep > since {
+					lateKnown = true
+				} else if s.err == nil {
+					lateKnown = true
+				}
+			}
+			if !graphKnown[s.Type] && !lateKnown {
 				// A type the Broker has never been told about (no pipeline ever
 				// registered, no threshold set) is answered with an error; C02's
 				// "error iff threshold missed" speaks about types that have
@@ -550,7 +634,7 @@ func runFanout(rc *RunCtx, o fanOpts) {
 				}
 				continue
 			}
-			checkStatus(rc, s, pipes, chains, cancelled, thr[s.Type])
+			checkStatus(rc, s, pipes, chains, cancelled, thr[s.Type], thrChanges)
 		}
 	}
 	if len(sends) > 0 && sim.NumTasks() > len(sends)+nClients {
@@ -607,7 +691,7 @@ func subMultiset(a, b map[string]int) bool {
 
 func sameMultiset(a, b map[string]int) bool { return subMultiset(a, b) && subMultiset(b, a) }
 
-func checkStatus(rc *RunCtx, s *fanSend, pipes []*mPipe, chains [][]expStep, cancelled bool, thr [2]int) {
+func checkStatus(rc *RunCtx, s *fanSend, pipes []*mPipe, chains [][]expStep, cancelled bool, thr [2]int, changes []thrChange) {
 	expComplete := map[string]int{}
 	expSinks := map[string]int{}
 	var expErrs []error
@@ -688,9 +772,19 @@ func checkStatus(rc *RunCtx, s *fanSend, pipes []*mPipe, chains [][]expStep, can
 		rc.Failf("C02.sinks-vs-complete", "", "Send#%d: completeSinks=%v but the sinks among complete=%v are %v", s.ID, s.status.CompleteSinks(), s.status.Complete(), wantS)
 	}
 	// error iff thresholds missed
-	wantErr := len(s.status.Complete()) < thr[0] || len(s.status.CompleteSinks()) < thr[1]
-	if wantErr != (s.err != nil) {
-		rc.Failf("C02.threshold", fmt.Sprintf("wantErr=%v", wantErr), "Send#%d: err=%v but complete=%d (threshold %d), completeSinks=%d (threshold %d)", s.ID, s.err, len(s.status.Complete()), thr[0], len(s.status.CompleteSinks()), thr[1])
+	// (either value when a setter overlaps the Send)
+	as := possibleThresholds(thr[0], changes, s.Type, false, s.invokeStep, s.returnStep)
+	bs := possibleThresholds(thr[1], changes, s.Type, true, s.invokeStep, s.returnStep)
+	explained := false
+	for _, a := range as {
+		for _, b := range bs {
+			if (len(s.status.Complete()) < a || len(s.status.CompleteSinks()) < b) == (s.err != nil) {
+				explained = true
+			}
+		}
+	}
+	if !explained {
+		rc.Failf("C02.threshold", fmt.Sprintf("err=%v", s.err != nil), "Send#%d: err=%v but complete=%d (thresholds possibly in force %v), completeSinks=%d (sink thresholds possibly in force %v)", s.ID, s.err, len(s.status.Complete()), as, len(s.status.CompleteSinks()), bs)
 	}
 	entries := len(s.status.Complete()) + len(s.status.Warnings)
 	if s.err != nil && (entries < len(pipes) || s.CancelMode == "pre") {
